@@ -440,6 +440,17 @@ pub fn build_format() -> Format {
     }
 }
 
+/// engine name for partial evidence: one per front-end build
+pub fn engine_name(base: &str) -> String {
+    let f = build_format();
+    let sup = if cfg!(feature = "suppress") { "-suppress" } else { "" };
+    if f == Format::Json {
+        format!("{base}{sup}")
+    } else {
+        format!("{base}-{}{sup}", f.name())
+    }
+}
+
 pub fn default_opts() -> WriteOpts {
     WriteOpts { format: build_format(), ascii_only: false }
 }
